@@ -542,7 +542,7 @@ class Fn:
         if cn in VERIFY:
             # result pending; `to_code` is patched to True by ev_assign when the call is `code = V(…)`
             out.append([("vcall", False)])
-        if cn in ZERO or (cn == "memSet" and len(args) == 3 and int_const(args[1]) == 0):
+        if cn in ZERO or cn == "memWipe" or (cn == "memSet" and len(args) == 3 and int_const(args[1]) == 0):
             for d in self.roots_of(args[0], "out"):
                 out.append([("zero", d)])
         else:
